@@ -273,6 +273,11 @@ def make_cases(ctx, first):
             w.add(st)
         if i % 3 == 0:
             w.probe()
+        if conf.get("rlimit", 1 << 30) < 100000:
+            # (with a small response limit a listing is cut into pages: the model lists the whole, paging is C07's; the oracle still judges the answer)
+            for s_ in w.steps:
+                if s_["kind"] == "refs":
+                    s_["model"] = "(skip)"
         cases.append(dict(id=first + i, conf=conf, steps=w.steps, contents=sorted(w.contents)))
     return cases
 
